@@ -91,6 +91,7 @@ type vstate struct {
 	hashName map[uint64]string              // real hash -> model hash id
 	bucket   int
 	home     string // Conf.Home of the running scenario
+	crash    *crashCtl
 }
 
 var vs = &vstate{}
@@ -106,6 +107,7 @@ func (s *vstate) reset() {
 	s.hashName = map[uint64]string{}
 	s.snap = nil
 	s.gate = nil
+	s.crash = nil
 	s.mu.Unlock()
 }
 
@@ -215,6 +217,10 @@ func vhook(point string, a ...interface{}) {
 		if p == "" {
 			vs.setProc("gc")
 			p = "gc"
+		}
+	case "w.append":
+		if vs.crash != nil {
+			vs.crash.nrecs++
 		}
 	case "fs.pre", "fs.post":
 		if vs.snap != nil {
